@@ -235,6 +235,24 @@ package align
 //@     invariant forall x :: 0 <= x && x < 256 ==> outmap[x] == upcnt(a, site, x, $i) && has(outmap, x) == (upcnt(a, site, x, $i) > 0) && upcnt(a, site, x, $i) >= 0
 //@     decreases nrows(a) - $i
 
+// rows counted by Entropy: not '*', not '.', and not '-' when gaps are removed
+//@ pure func entcnt(a *align, c int, rg bool, n int) int = (n <= 0 ? 0 : entcnt(a, c, rg, n-1) + (cell(a, n-1, c) != '*' && cell(a, n-1, c) != '.' && (!rg || cell(a, n-1, c) != '-') ? 1 : 0))
+
+//@ func (*align).Entropy
+//@   props C14 C19
+//@   float xreal
+//@   requires wfa(a)
+//@   ensures (result1 != nil) == (site < 0 || site >= a.length)
+//@   ensures result1 == nil && entcnt(a, site, removegaps, nrows(a)) == 0 ==> isnan(result0)
+//@   modifies nothing
+//@   loop 1
+//@     invariant 0 <= site && site < a.length && 0 <= seq && seq <= nrows(a) && occur != nil && fresh(occur)
+//@     invariant total == entcnt(a, site, removegaps, seq) && total >= 0
+//@     invariant forall k :: has(occur, k) ==> total > 0 && occur[k] >= 1
+//@     decreases nrows(a) - seq
+//@   loop 2
+//@     invariant total == entcnt(a, site, removegaps, nrows(a))
+
 //@ pure func wildcard(a *align) int = (a.alphabet == AMINOACIDS ? 'X' : 'N')
 //@ pure func excl(a *align, ignoreGaps bool, ignoreNs bool, k int) bool = (ignoreGaps && k == '-') || (ignoreNs && (k == wildcard(a) || k == low8(wildcard(a))))
 // per-site result of MaxCharStats: the most frequent case-folded character among those not excluded, ties to the lowest code;
